@@ -159,28 +159,27 @@ func (r Resp) String() string {
 
 // Request is one log entry.  Times are relative to the creation of the server.
 type Request struct {
-	Seq        int // arrival order, from 0
-	Conn       string
-	Arrive     time.Duration // handler entered
-	BodyDone   time.Duration // request body read completely
-	RespStart  time.Duration // about to write the response (end of the in-flight interval)
-	Method     string
-	Host       string
-	URL        string
-	SessionID  string // first X-Session-Id value
-	SessionN   int    // number of X-Session-Id values
-	DeclLen    int64  // Content-Length of the request
-	Body       []byte // nil after DropBodies
-	BodyLen    int
-	BodyErr    string
-	UpOff      int64 // sum of the body lengths of all earlier requests (filled by Snapshot)
-	InFlight   int   // handlers between entry and response start when this one entered, itself included
-	Resp       Resp
-	DownOff    int64 // offset of the response body in the downstream stream
-	Probe      int64 // value of the caller's probe when the body was complete
-	Answered   bool
-	WriteErr   string
-	afterClose bool
+	Seq       int // arrival order, from 0
+	Conn      string
+	Arrive    time.Duration // handler entered
+	BodyDone  time.Duration // request body read completely
+	RespStart time.Duration // about to write the response (end of the in-flight interval)
+	Method    string
+	Host      string
+	URL       string
+	SessionID string // first X-Session-Id value
+	SessionN  int    // number of X-Session-Id values
+	DeclLen   int64  // Content-Length of the request
+	Body      []byte // nil after DropBodies
+	BodyLen   int
+	BodyErr   string
+	UpOff     int64 // sum of the body lengths of all earlier requests (filled by Snapshot)
+	InFlight  int   // handlers between entry and response start when this one entered, itself included
+	Resp      Resp
+	DownOff   int64 // offset of the response body in the downstream stream
+	Probe     int64 // value of the caller's probe when the body was complete
+	Answered  bool
+	WriteErr  string
 }
 
 // Server is one recording server (use one per connection under test).
@@ -320,7 +319,7 @@ func (s *Server) ServeHTTP(w http.ResponseWriter, r *http.Request) {
 	}
 	rec := &Request{Seq: seq, Conn: r.RemoteAddr, Arrive: time.Since(s.start), Method: r.Method, Host: r.Host,
 		URL: r.URL.String(), SessionID: r.Header.Get("X-Session-Id"), SessionN: len(r.Header.Values("X-Session-Id")),
-		DeclLen: r.ContentLength, InFlight: s.inflight, Resp: resp, DownOff: s.downPlanned, afterClose: s.closed}
+		DeclLen: r.ContentLength, InFlight: s.inflight, Resp: resp, DownOff: s.downPlanned}
 	s.downPlanned += int64(resp.Size)
 	s.reqs = append(s.reqs, rec)
 	s.mu.Unlock()
